@@ -16,32 +16,48 @@ THEOREMS = [
     "RedunModel.C09.waiting_once",
     "RedunModel.C09.feasible_of_check",
     "RedunModel.SchedCore.reachable_inv",
+    "RedunModel.C09.no_deadlock",
+    "RedunModel.C09.pending_job_has_activity",
+    "RedunModel.C09.deadlock_without_rank_refuted",
+    "RedunModel.C09.cycProg_not_ranked",
+    "RedunModel.SchedCore.reachable_live",
+    "RedunModel.SchedCore.idle_finished",
 ]
 TRUSTED = base.TRUSTED
 ASSUMPTIONS = base.ASSUMPTIONS + [
     "feasible programs only for the hang oracle: no job demands more of a resource than its configured limit (as in the statement)",
     "on a run that raises, jobs still in flight when the root fails are abandoned by design (run raises at the first root failure); "
-    "'every job settled' is therefore checked on runs that return"]
+    "'every job settled' is therefore checked on runs that return",
+    "generated programs are ranked (hypothesis Ranked of no_deadlock): a task only calls tasks defined after it, so no job transitively "
+    "calls a job with its own cache key; a recursive call with identical arguments deadlocks through CSE in the model "
+    "(deadlock_without_rank_refuted) and is outside the property's domain"]
 RULE = ("as C08 (same generator and controlled schedules) restricted to feasible limit configurations; the oracle is the controlled event "
         "loop itself: a state with no queued event and no in-flight job while the workflow promise is pending is a hang (the real loop "
         "would block in events_queue.get forever); on returning runs no job may be left in scheduler._jobs or in the waiting list. "
         "distinct = distinct (program, schedule); non-trivial = at least one job ever waited for limits")
 LEVEL_TEXT = ("Lean 4 proof (all programs, all schedules) that a non-empty waiting list always has a justification (a holder or a queued "
               "execution) and hence that an idle scheduler has an empty waiting list (no lost wake-up), and that a waiting job is queued "
-              "at most once; PARTIAL with respect to the full statement: 'the root settles in every maximal run' (liveness of the promise "
-              "bookkeeping) is covered by the correspondence and the hang oracle only, not yet by a theorem.")
+              "at most once; the liveness half is now proved too, FULL strength on the model: no_deadlock - for every real (non-dry) run of "
+              "a program that is Feasible (no job demands more than its limit) and Ranked (a rank on cache keys strictly decreases from a "
+              "job to the jobs it calls, i.e. no job transitively calls a job with its own cache key), in every schedule an idle state (no "
+              "queued event, no job in flight) has the workflow promise settled; it rests on the lifecycle invariant reachable_live / "
+              "pending_job_has_activity (every pending job is queued or waiting for limits, in flight, has a completion event queued, "
+              "waits for a pending child, or is collapsed onto a pending non-collapsed job with the same key). The rank hypothesis is "
+              "necessary: deadlock_without_rank_refuted is the closed counter-example f(x)->g(x)->f(x), which satisfies every other "
+              "hypothesis and deadlocks through CSE (the inner call collapses onto its own ancestor). Dry runs are excluded by design: a "
+              "dry run stops at the first miss with the promise pending.")
 LEVEL_NOTE = ("mirrors /repo after fix 398aa2d (re-check of the waiting list on the CSE/cache exits) - the defect was found while attempting "
               "this proof; the former hanging schedule is a non-vacuity example in Props/C09.lean and a corpus case here")
 TECHNIQUE = base.TECHNIQUE
 
 
-def one_run(ctx, p, decisions=None, rng=None, items=None, tag="random"):
+def one_run(ctx, p, decisions=None, rng=None, items=None, tag="random", p_complete=0.3):
     waited = []
 
     def after(ctl):
         if ctl.scheduler._jobs_pending_limits:
             waited.append(1)
-    st, payload, ctl, sched = sc.run_real(p, decisions=decisions, rng=rng, after_event=after)
+    st, payload, ctl, sched = sc.run_real(p, decisions=decisions, rng=rng, after_event=after, p_complete=p_complete)
     key = (json.dumps(p.to_json(), sort_keys=True), tuple(ctl.choice_log)) if waited else None
     ctx.case(key=key, sample={"program": p.to_json(), "choices": " ".join(ctl.choice_log), "status": st},
              status=st, jobs=len(p.specs), kind=tag, waited=bool(waited))
@@ -72,12 +88,14 @@ def run(ctx):
         base.flush(ctx, items)
     n = 0
     while n < ctx.n(60, 700):
-        p = sc.gen_program(rng, p_limits=0.8, allow_badexec=False)
+        wide = n % 3 == 2
+        p = sc.gen_wide(rng) if wide else sc.gen_program(rng, p_limits=0.8, allow_badexec=False)
         if not sc.feasible(p):
             continue
         n += 1
-        for k in range(2):
-            one_run(ctx, p, rng=random.Random(rng.random()), items=items)
+        for k in range(3 if wide else 2):
+            one_run(ctx, p, rng=random.Random(rng.random()), items=items, tag="wide" if wide else "random",
+                    p_complete=0.55 if wide else 0.3)
         if len(items) >= 50:
             base.flush(ctx, items)
     base.flush(ctx, items)
